@@ -331,15 +331,108 @@ def point_of(n):
 
 
 # ---------------------------------------------------------------------------------------------- generator
+# ---- constant pools around powers of two and byte / word boundaries (the integer pool of the plain histories is -12..12)
+BOUNDARIES = [2 ** 7, 2 ** 8, 2 ** 15, 2 ** 16, 2 ** 31, 2 ** 32, 2 ** 53, 2 ** 63, 2 ** 64]
+NEAR_DENS = [2, 3, 10, 256, 2 ** 32]
+
+
+def boundary_pool(b):
+    """0, +-1 and both signs of b-1, b, b+1"""
+    return [0, 1, -1] + [s * (b + d) for d in (-1, 0, 1) for s in (1, -1)]
+
+
 class Gen:
-    def __init__(self, rng, w):
+    def __init__(self, rng, w, consts=None, sweep=None):
         self.rng = rng
         self.w = w
         self.pool = {"bool": [], "num": [], "user": []}     # node ids by kind
         self.nodes = {}                                      # id -> FNode
         self.stats = None
+        # boundary histories: `consts` = the constant pool the history draws its numbers from; `sweep` = pool values that
+        # are each requested once as an Int constant (directly or through auto-promotion), in this order, first
+        self.consts = consts
+        self.sweep = list(sweep or [])
+
+    # -- literals of a boundary pool
+    def lit_of(self, v):
+        """A Python number / string denoting the INTEGER v (all of them must become the Int constant v)."""
+        rng = self.rng
+        r = rng.random()
+        if r < 0.5:
+            return ("int", v)
+        if r < 0.7:
+            d = rng.choice([1, 2, 3, 7, 256])
+            return ("frac", v * d, d)                              # Fraction(510, 2)
+        if r < 0.8 and abs(v) < 2 ** 50:
+            e = rng.choice([0, 1, 2])
+            return ("float", v * 2 ** e, e)                        # 255.0
+        s = rng.random()
+        if s < 0.4:
+            return ("str", str(v), v, 1, True)                     # "255"
+        if s < 0.7:
+            d = rng.choice([1, 2, 3, 256])
+            return ("str", "%d/%d" % (v * d, d), v * d, d, False)  # "510/2"
+        return ("str", "%d.0" % v, v * 10, 10, False)              # "-255.0"
+
+    def near_of(self, v):
+        """(numerator, denominator) of a fraction next to the integer v (never integral)."""
+        d = self.rng.choice(NEAR_DENS)
+        return v * d + self.rng.choice([1, -1]), d
+
+    def lit_near(self, v):
+        rng = self.rng
+        n, d = self.near_of(v)
+        r = rng.random()
+        if r < 0.6:
+            return ("frac", n, d)                                  # Fraction(511, 2)
+        if r < 0.8 and abs(v) < 2 ** 48:
+            e = rng.choice([1, 2, 3])
+            return ("float", v * 2 ** e + rng.choice([1, -1]), e)  # 255.5
+        return ("str", "%d/%d" % (n, d), n, d, False)              # "511/2"
+
+    def num_operand(self):
+        r = self.rng.random()
+        if r < 0.25 and self.pool["num"]:
+            c = [i for i in (self.rng.choice(self.pool["num"]) for _ in range(4)) if self.small(i)]
+            if c:
+                return ("node", c[0])
+        if r < 0.8:
+            return ("fluent", self.rng.choice([2, 3, 4]))
+        return ("param", self.rng.choice([2, 4]))
+
+    def promoting_call(self, lit):
+        """A well-typed constructor call that auto-promotes the literal `lit` (first or second position)."""
+        rng = self.rng
+        other = self.num_operand() if rng.random() < 0.8 else self.lit_of(rng.choice(self.consts))
+        a, b = (lit, other) if rng.random() < 0.5 else (other, lit)
+        opn = rng.choice(["Plus", "Plus", "Times", "LE", "LE", "GE", "LT", "GT", "Equals", "Equals", "Minus"])
+        if opn in ("Plus", "Times"):
+            return ("nary", opn, [a, b], rng.random() < 0.5)
+        return ("bin", opn, a, b)
+
+    def int_request(self, v):
+        """Ask for the Int constant v: Int(v) or a literal inside Plus / Times / LE / ... / Equals."""
+        if self.rng.random() < 0.4:
+            return ("Int", v)
+        return self.promoting_call(self.lit_of(v))
+
+    def real_request(self, v):
+        """Ask for a Real constant at or next to the integer v: Real(Fraction) or a literal inside an operator."""
+        rng = self.rng
+        if rng.random() < 0.5:
+            if rng.random() < 0.4:
+                d = rng.choice([1, 2, 3, 256])
+                return ("Real", v * d, d)                          # Real(Fraction(510, 2)): stays a REAL constant
+            return ("Real",) + self.near_of(v)
+        return self.promoting_call(self.lit_near(v))
 
     def lit_num(self):
+        if self.consts is not None:
+            r = self.rng.random()
+            if r < 0.5:
+                return self.lit_of(self.rng.choice(self.consts))
+            if r < 0.7:
+                return self.lit_near(self.rng.choice(self.consts))
         r = self.rng.random()
         z = self.rng.randint(-6, 6)
         if r < 0.45:
@@ -410,6 +503,14 @@ class Gen:
 
     def new_call(self):
         rng = self.rng
+        if self.consts is not None:
+            r = rng.random()
+            if self.sweep and r < 0.8:
+                return self.int_request(self.sweep.pop(0))
+            if r < 0.85:
+                return self.real_request(rng.choice(self.consts))
+            if r < 0.9:
+                return self.int_request(rng.choice(self.consts))
         r = rng.random()
         if r < 0.03 and self.pool["num"]:
             n0 = ("node", rng.choice(self.pool["num"]))
@@ -522,14 +623,24 @@ def normalisation_violations(c, n, nodes):
         elif arg_matches(first, n.arg(0), nodes) is False or arg_matches(second, n.arg(1), nodes) is False:
             bad.append("%s(a, b): children are not (%s) with canonical constants" % (
                 opn, "b, a" if opn in ("GE", "GT") else "a, b"))
+    elif k == "Int":
+        if not (n.is_int_constant() and type(n._content.payload) is int and n._content.payload == c[1] and not n.args):
+            bad.append("Int(%d) is not the Int constant %d but %s" % (c[1], c[1], n))
+    elif k == "Real":
+        v = Fraction(c[1], c[2])
+        if not (n.is_real_constant() and isinstance(n._content.payload, Fraction) and n._content.payload == v and not n.args):
+            bad.append("Real(%s) is not the Real constant %s but %s" % (v, v, n))
+    elif k == "Bool":
+        if not (n.is_bool_constant() and type(n._content.payload) is bool and n._content.payload == c[1] and not n.args):
+            bad.append("Bool(%s) is not the Bool constant %s but %s" % (c[1], c[1], n))
     return bad
 
 
-def run_history(rng, n_steps, stats):
+def run_history(rng, n_steps, stats, consts=None, sweep=None):
     """Returns (calls, observations, oracle_violations, final (size, next_id))."""
     from unified_planning.exceptions import UPTypeError, UPExpressionDefinitionError
     w = World()
-    g = Gen(rng, w)
+    g = Gen(rng, w, consts, sweep)
     calls, obs, viol = [], [], []
     first = {}          # node id -> (object, snapshot)
     by_content = {}     # content key -> object
@@ -637,21 +748,38 @@ def run(ctx):
     cases, raw, oracle = [], [], []
     nontrivial = set()
     total = 0
-    for h in range(n_hist):
-        calls, obs, viol, (size, nxt), outcomes = run_history(rng, n_steps, stats)
+    # boundary histories (after the plain ones, so that those stay what they were for a given seed): per boundary b two
+    # histories over the same constant pool (0, +-1, +-(b-1), +-b, +-(b+1), plus the pool of a second boundary); each value
+    # of b's pool is requested once as an Int constant at the start, in a shuffled order in the first history and in the
+    # reverse order in the second one; the rest of the history draws its numeric literals mostly from the pool
+    n_bsteps = 30 if ctx.quick else 300
+
+    def plans():
+        for _ in range(n_hist):
+            yield n_steps, None, None
+        for b in BOUNDARIES:
+            first = boundary_pool(b)
+            rng.shuffle(first)
+            consts = first + boundary_pool(rng.choice([x for x in BOUNDARIES if x != b]))[3:]
+            yield n_bsteps, consts, first
+            yield n_bsteps, consts, first[::-1]
+    n_all = n_hist + 2 * len(BOUNDARIES)
+    stats["boundary_histories"] = 2 * len(BOUNDARIES)
+    for h, (steps, consts, sweep) in enumerate(plans()):
+        calls, obs, viol, (size, nxt), outcomes = run_history(rng, steps, stats, consts, sweep)
         total += len(calls)
         cases.append("{| c_decls := D; c_calls := %s; c_obs := %s; c_size := %s; c_next := %s |}" % (
             glist([call_coq(c) for c in calls]), glist(obs), "%d%%nat" % size, gn(nxt)))
         raw.append({"calls": calls if len(calls) <= 60 else calls[:60] + ["... %d more" % (len(calls) - 60)],
                     "outcomes": [(o[0], o[1].node_id if o[0] == "ok" else o[1]) for o in outcomes][:60],
-                    "size": size, "next_free_id": nxt})
+                    "size": size, "next_free_id": nxt, "constant_pool": consts})
         for v in viol:
             oracle.append((h, v))
         if any(o[0] == "err" for o in outcomes) and len(calls) >= 5:
             nontrivial.add(json.dumps(calls, default=str))
     imports = ["UPV.Model.HashCons", "UPV.Corr.Corr_C16"]
     pre = "Definition D : decls := %s.\n" % DECLS
-    bad = coq_failing_two_at_a_time(ctx, cases, "ok", imports, pre, 20 if ctx.quick else 4)
+    bad = coq_failing_two_at_a_time(ctx, cases, "ok", imports, pre, (len(cases) + 1) // 2 if ctx.quick else 4)
     for h, v in oracle[:10]:
         ctx.fail("oracle", "hash-consing violated on the implementation: %s" % v["what"],
                  ["c16", "identity-oracle"], {"history": raw[h], "violation": v}, True)
@@ -675,13 +803,14 @@ def run(ctx):
         ctx.proof_broken()
     ctx.finish({
         "evaluations": total,
-        "histories": n_hist,
+        "histories": n_all,
         "distinct_nontrivial": len(nontrivial),
-        "rule": "one case = one construction history of %d constructor calls on a fresh Environment; non-trivial = at least "
-                "5 calls and at least one failing call; distinct by the list of calls" % n_steps,
+        "rule": "one case = one construction history of %d constructor calls (boundary-constant histories: %d) on a fresh "
+                "Environment; non-trivial = at least 5 calls and at least one failing call; distinct by the list of calls"
+                % (n_steps, n_bsteps),
         "samples": raw[:1],
         "distribution": stats,
-        "traces_validated_against_impl": n_hist,
+        "traces_validated_against_impl": n_all,
     }, "proof", assumptions=[
         "fluent/parameter types are bool, unbounded int/real or user types (point-or-unbounded numeric types)",
         "numeric literals are ints, Fractions, exact small binary floats and decimal/fraction strings",
